@@ -584,6 +584,10 @@ func siblingBlockPrograms() [][]string {
 		[]string{"local a, b = 1, 2", "local c = a // b + (a << b) + (a ~ b)", "print(c)"},
 		[]string{"local a = 1", "goto done", "local b = a", "::done::", "print(a)"},
 		scopeTallProgram(),
+		[]string{"local a = 0", "local f = a and function(a)", "  return a", "end or function(b)", "  return a, b", "end", "print(f, a)"},
+		[]string{"local a = 0", "local b, c, d = a, f()", "print(b, c, d)"},
+		[]string{"local a = 1", "if a then local b = 2 else local b = 3 local c = b end"},
+		[]string{"local a = 1", "if a then", "  local b = 2", "else", "  local b = 3", "  local c = b", "end"},
 	)
 	return out
 }
